@@ -63,14 +63,15 @@ package format
 //@   ensures [split-error] ret(split, 1) != nil ==> result1 == ret(split, 1) && result0 == ""
 //@   ensures [assembled] ret(split, 1) == nil ==> result1 == nil && calls(strings.Join) == 1 && arg(strings.Join, 1) == format.through && result0 == format.before + ret(strings.Join) + format.after
 
-// split, rune by rune: '_' ends the current word and is dropped; EVERY upper-case ASCII letter 'A'..'Z' ends the
-// current word and starts the next one with itself; any other rune is appended to the current word. A word is
+// split, rune by rune: '_' ends the current word and is dropped; EVERY upper-case letter (any script: the
+// property speaks of upper-case letters and quantifies over unicode identifiers) ends the current word and starts the next one with itself; any other rune is appended to the current word. A word is
 // emitted exactly when it is non-empty.
 //@ func split
 //@   prop C20
 //@   opaque NewReader, NewBuffer
 //@   let r = ret(ReadRune, 0)
-//@   let upper = r >= 65 && r <= 90
+//@   let upper = isupper(r)
+//@   replay format_unicode_upper
 //@   loop 1 iteration-ensures [one-rune-per-step] calls(ReadRune) == 1 && ret(ReadRune, 2) == nil
 //@   loop 1 iteration-ensures [underscore-ends-word-and-is-dropped] r == 95 ==> calls(Reset) == 1 && calls(WriteRune) == 0 && calls(Len) == 1 && (len(list) == at_head(len(list)) + 1) == (ret(Len) > 0) && (len(list) == at_head(len(list)) || len(list) == at_head(len(list)) + 1)
 //@   loop 1 iteration-ensures [upper-case-letter-starts-a-word] r != 95 && upper ==> calls(Reset) == 1 && calls(WriteRune) == 1 && arg(WriteRune, 1) == r && before(Reset, WriteRune) && calls(Len) == 1 && (len(list) == at_head(len(list)) + 1) == (ret(Len) > 0) && (len(list) == at_head(len(list)) || len(list) == at_head(len(list)) + 1)
